@@ -15,6 +15,10 @@ func main() {
 		metaWorkerMain(os.Args[2:])
 		return
 	}
+	if len(os.Args) > 2 && os.Args[1] == "worker" && strings.HasPrefix(os.Args[2], "names") {
+		namesWorkerMain(os.Args[2:])
+		return
+	}
 	if len(os.Args) > 1 && os.Args[1] == "worker" {
 		workerMain(os.Args[2:])
 		return
